@@ -30,9 +30,12 @@ PROP = dict(
                   "Rust harness /verif/harness (vh c04): exact rational item-variation-store evaluator written from the "
                   "OpenType specification, cross-checked against read-fonts' evaluators and against the Gallina one",
                   "read-fonts / skrifa table decoders"],
-    assumptions=["f64 is modelled by Q; for designs whose normalized coordinates are not multiples of 1/16384 region "
-                 "coordinates are compared after rounding to F2Dot14 and a case whose exact pre-rounding delta is a "
-                 "tie is not compared (has_tie)",
+    assumptions=["f64 is modelled by Q; region scalars are ratios of coordinate differences (e.g. 4096/12288) and are not "
+                 "exact in f64 even for F2Dot14-exact coordinates, so when the model's exact pre-rounding delta of a glyph "
+                 "or metric is exactly a rounding tie (has_tie) a decoded delta set that differs from the model's is "
+                 "tolerated for that glyph / metric (seen: 3 - 2/3 - 4/3 - 1/2 = 0.5 exactly, 0.5000000000000002 in f64); "
+                 "the property predicate on the real tables is evaluated regardless. For designs whose normalized "
+                 "coordinates are not multiples of 1/16384 region coordinates are compared after rounding to F2Dot14",
                  "write-fonts' VariationStoreBuilder (region de-duplication, ordering, delta-set packing, direct vs "
                  "indirect store) and iup_delta_optimize are not modelled: their output is read back and compared as a "
                  "multiset of (region, non-zero delta) per item (row_matches, proved sound)",
